@@ -92,8 +92,56 @@ def request_kind(v: Any, supported: List[str]) -> str:
     return "malformed-string"
 
 
+_DIGIT_ZEROS = {"full-width": 0xFF10, "arabic-indic": 0x0660, "extended-arabic-indic": 0x06F0, "devanagari": 0x0966}
+
+
+def _digits(s: str, zero: int) -> str:
+    return "".join(chr(zero + ord(ch) - 48) if "0" <= ch <= "9" else ch for ch in s)
+
+
+def lookalikes(supported: List[str]) -> List[str]:
+    """For EVERY supported date: strings that a lenient parser (strip, split('-'), int()) turns into the same
+    (year, month, day) but that are not the supported string."""
+    out: List[str] = []
+    for s in supported:
+        y, m, d = s.split("-")
+        cand = [s + "\n", s + "\r\n", "\n" + s, " " + s, s + " ", " " + s + " ", "\t" + s + "\t", s + "\x0b", s + "\u00a0",
+                s + "\u2028", s + "\u3000",
+                "+" + s, f"{y}-+{int(m)}-{d}", f"{y}-{m}-+{int(d)}", f" {y} - {m} - {d} ",
+                f"{int(y)}-{int(m)}-{int(d)}", "0" + s, f"{y}-0{m}-0{d}", f"{y[0]}_{y[1:]}-{m}-{d}"]
+        for zero in _DIGIT_ZEROS.values():
+            cand.append(_digits(s, zero))
+            cand.append(s[:-1] + _digits(s[-1], zero))          # only the last digit foreign
+            cand.append(_digits(y, zero) + s[4:])                # only the year foreign
+        for c in cand:
+            if c != s and c not in out:
+                out.append(c)
+    return out
+
+
+def loose_parse(v: Any):
+    """The lenient reading a tuple-comparing implementation would use (reference for counting only)."""
+    if not isinstance(v, str):
+        return None
+    parts = v.strip().split("-")
+    if len(parts) != 3:
+        return None
+    try:
+        return tuple(int(p) for p in parts)
+    except ValueError:
+        return None
+
+
 def misc_versions(supported: List[str]) -> List[Any]:
-    return list(supported) + MALFORMED + NON_STRINGS
+    base = list(supported) + MALFORMED + NON_STRINGS
+    # appended last: the indices of the older entries stay valid
+    return base + [c for c in lookalikes(supported) if c not in MALFORMED]
+
+
+def twostep_values(supported: List[str]) -> List[Any]:
+    """One or more representatives of every requested-version class, for the two-initialize part."""
+    return list(supported) + ["2099-01-01", "1999-12-31", "2025-13-45", "latest", supported[0] + "\n",
+                              _digits(supported[1], 0x0660), 12, None, ABSENT]
 
 
 # ---------------------------------------------------------------------------
@@ -121,6 +169,11 @@ def build_init(v: Any, ci: Any, absent_shape: str = "params-without-version") ->
 
 async def judge_case(handler_factory, parse_message, supported, wire, v, count, bad):
     """Run one initialize on a fresh handler and judge it."""
+    return (await judge_step(handler_factory(), parse_message, supported, wire, v, count, bad))["tag"]
+
+
+async def judge_step(handler, parse_message, supported, wire, v, count, bad, carried=None, fresh=True, prev_answer=ABSENT):
+    """One initialize on ``handler`` (passing session id ``carried``), judged.  Returns tag / session id / answer."""
     kind = request_kind(v, supported)
     count("cases")
     count("request:" + kind.split(":")[0])
@@ -128,18 +181,19 @@ async def judge_case(handler_factory, parse_message, supported, wire, v, count, 
         msg = parse_message(json.loads(json.dumps(wire)))
     except Exception:  # noqa: BLE001
         count("rejected-by-parse_message")
-        return "parse-rejected"
-    handler = handler_factory()
+        return {"tag": "parse-rejected", "sid": None, "answered": ABSENT}
     try:
-        ret = await handler.handle_message(msg)
+        ret = await handler.handle_message(msg, carried)
     except Exception as e:  # noqa: BLE001
         bad({"class": "initialize-raised", "request_kind": kind, "detail": type(e).__name__},
             f"handle_message raised {type(e).__name__}: {str(e)[:120]!r}", wire)
-        return "raised"
+        return {"tag": "raised", "sid": None, "answered": ABSENT}
     if not (isinstance(ret, tuple) and len(ret) == 2) or ret[0] is None:
         bad({"class": "initialize-not-answered", "request_kind": kind}, f"handle_message returned {ret!r}", wire)
-        return "not-answered"
+        return {"tag": "not-answered", "sid": None, "answered": ABSENT}
     resp, sid = ret
+    if not isinstance(sid, str) and isinstance(carried, str) and handler.session_manager.get_session(carried) is not None:
+        sid = carried   # no new id announced: the session in force is the one the connection carried
     try:
         d = resp.model_dump(exclude_none=True)
     except Exception:  # noqa: BLE001
@@ -148,13 +202,13 @@ async def judge_case(handler_factory, parse_message, supported, wire, v, count, 
     if rk not in ("result", "error") or not strict_eq(d.get("id"), wire["id"]):
         bad({"class": "initialize-invalid-response", "request_kind": kind},
             f"response {d!r} is not a valid response to id {wire['id']!r} ({why})", wire)
-        return "invalid-response"
+        return {"tag": "invalid-response", "sid": None, "answered": ABSENT}
     if rk == "error":
         if kind == "supported":
             bad({"class": "supported-request-rejected", "request_kind": kind},
                 f"initialize for a supported version was rejected: {d['error']!r}", wire)
         count("answer:error")
-        return "error"
+        return {"tag": "error", "sid": None, "answered": ABSENT}
     result = d.get("result")
     # the response as the client sees it keeps null members; read the raw attribute too
     raw = getattr(resp, "result", None)
@@ -187,16 +241,17 @@ async def judge_case(handler_factory, parse_message, supported, wire, v, count, 
         bad({"class": "no-session-recorded", "request_kind": kind},
             f"initialize answered with session id {sid!r} but get_session finds nothing (store: {len(sessions)})", wire)
     else:
-        others = [s.protocol_version for s in sessions.values()]
+        others = [s.protocol_version for s in sessions.values()] if fresh else []
         if not strict_eq(stored, answered) or any(not strict_eq(o, answered) for o in others):
-            what = "requested" if v is not ABSENT and strict_eq(stored, v) else "other"
+            what = ("requested" if v is not ABSENT and strict_eq(stored, v) else
+                    "answer-of-the-first-initialize" if prev_answer is not ABSENT and strict_eq(stored, prev_answer) else "other")
             bad({"class": "session-version-differs-from-answer", "request_kind": kind, "stored": what},
                 f"answered {answered!r} but the session records {stored!r} (all sessions: {others!r})", wire)
         else:
             count("session-version-equals-answer")
     if not isinstance(result, dict):
         bad({"class": "initialize-invalid-response", "request_kind": kind}, f"result is {result!r}", wire)
-    return tag
+    return {"tag": tag, "sid": sid if isinstance(sid, str) else None, "answered": answered}
 
 
 def _handler_factory():
@@ -410,9 +465,96 @@ def run_pairing(cfg) -> Dict[str, Any]:
     return obs
 
 
+CARRY = ["no-session-id", "first-session-id", "never-issued-session-id"]
+TWO_CLIENTS = [{"name": "vf-client", "version": "0.1"}, {"name": "vf-client-reconnected", "version": "0.2", "x": [1]}]
+
+
+def run_twostep(cfg) -> Dict[str, Any]:
+    """Two initialize requests on ONE handler; the second optionally carries the first one's session id.
+    Each answer's session (the id returned by THAT initialize) must record exactly the version answered by it."""
+    from chuk_mcp.protocol.messages.json_rpc_message import parse_message
+
+    supported = supported_set()
+    vals = twostep_values(supported)
+    v1, v2 = vals[cfg["a"]], vals[cfg["b"]]
+    carry = CARRY[cfg["carry"]]
+    handler = _handler_factory()()
+    counters: Dict[str, int] = {}
+    viol: List[dict] = []
+    step = {"n": "first-initialize"}
+
+    def count(k, n=1):
+        counters[k] = counters.get(k, 0) + n
+
+    def bad(sig, msg, wire):
+        viol.append({"sig": dict(sig, step=step["n"], carried=carry if step["n"] != "first-initialize" else "n/a"),
+                     "msg": f"{step['n']} (second one carries: {carry}; first requested {v1!r}): {msg}; "
+                            f"input={json.dumps(wire, ensure_ascii=True)}"})
+
+    out: Dict[str, Any] = {}
+
+    async def main():
+        w1 = build_init(v1, TWO_CLIENTS[0])
+        w1["id"] = 7
+        r1 = await judge_step(handler, parse_message, supported, w1, v1, count, bad)
+        step["n"] = "second-initialize"
+        carried = None if carry == "no-session-id" else r1["sid"] if carry == "first-session-id" else "never-issued-session-id"
+        w2 = build_init(v2, TWO_CLIENTS[1])
+        r2 = await judge_step(handler, parse_message, supported, w2, v2, count, bad, carried=carried, fresh=False,
+                              prev_answer=r1["answered"])
+        out["r1"], out["r2"] = r1, r2
+        # the first answer's session must still be what was answered then, unless the second initialize took over that id
+        if r1["sid"] and r2["sid"] and r1["sid"] != r2["sid"]:
+            s1 = handler.session_manager.get_session(r1["sid"])
+            if s1 is not None and not strict_eq(s1.protocol_version, r1["answered"]):
+                bad({"class": "first-session-version-rewritten", "request_kind": request_kind(v2, supported)},
+                    f"first initialize answered {r1['answered']!r}; after the second one its session records "
+                    f"{s1.protocol_version!r}", w2)
+
+    loop = new_loop(horizon=5)
+    with sched.patched_uuid():
+        status, val = loop.run_main(main())
+        errors = loop.collect_errors()
+        loop.abandon()
+    if status != "ok":
+        raise core.HarnessError(f"two-step {cfg} did not complete: {status} {val!r}")
+    if errors:
+        raise core.HarnessError(f"two-step {cfg}: event loop reported {errors[:2]}")
+    r1, r2 = out["r1"], out["r2"]
+    obs: Dict[str, Any] = {
+        "requested": [repr(v1), repr(v2)], "carry": carry,
+        "answered": [repr(r1["answered"]), repr(r2["answered"])],
+        "same_session_id": bool(r1["sid"]) and r1["sid"] == r2["sid"],
+        "outcome": f"{r1['tag']}/{r2['tag']}",
+    }
+    if cfg.get("single"):
+        obs["violations"] = viol
+        obs["counters"] = {"single-cases": 1}
+        return obs
+    obs["violations"] = []
+    obs["failing_signatures"] = sorted(json.dumps(v["sig"], sort_keys=True) for v in viol)
+    c = {"twostep-cases": 1, "twostep-initializes": 2}
+    rank = (cfg["a"] * 64 + cfg["b"]) * 4 + cfg["carry"]
+    for v in viol:
+        c[twopass.fail_key(v["sig"], rank, dict(cfg, single=True))] = 1
+        k = "sig:" + json.dumps(v["sig"], sort_keys=True)
+        c[k] = c.get(k, 0) + 1
+    if viol:
+        c["violating-judgements"] = len(viol)
+    obs["counters"] = c
+    return obs
+
+
+def twostep_configs(supported: List[str]) -> List[Dict[str, Any]]:
+    n = len(twostep_values(supported))
+    return [{"part": "twostep", "a": a, "b": b, "carry": k} for a in range(n) for b in range(n) for k in range(len(CARRY))]
+
+
 def run_one(ctl: explorer.Ctl, cfg: Dict[str, Any]) -> Dict[str, Any]:
     if cfg["part"] == "pairing":
         return run_pairing(cfg)
+    if cfg["part"] == "twostep":
+        return run_twostep(cfg)
     return run_block(cfg)
 
 
@@ -463,6 +605,7 @@ def run(tier: str, only=None) -> core.Result:
     # the parts with the most varied signatures first (the runner keeps the first 400 violations)
     parts = {
         "misc": [{"part": "misc", "v": i} for i in range(-1, len(versions))],
+        "twostep": twostep_configs(supported),
         "pairing": pairing_configs(tier),
         "grid": grid_configs(tier),
     }
@@ -476,7 +619,15 @@ def run(tier: str, only=None) -> core.Result:
     g = res.parts.get("grid", {}).get("counters", {})
     m = res.parts.get("misc", {}).get("counters", {})
     p = res.parts.get("pairing", {}).get("counters", {})
-    evaluations = g.get("cases", 0) + m.get("cases", 0) + p.get("pairing-cases", 0)
+    t = res.parts.get("twostep", {}).get("counters", {})
+    evaluations = g.get("cases", 0) + m.get("cases", 0) + p.get("pairing-cases", 0) + t.get("twostep-cases", 0)
+    res.coverage["twostep_cases"] = t.get("twostep-cases", 0)
+    # (d) strings that a lenient parser reads as a supported date without being the supported string
+    look = {sv: sum(1 for v in versions if isinstance(v, str) and v != sv and loose_parse(v) == loose_parse(sv))
+            for sv in supported}
+    res.coverage["malformed_strings_parsing_to_each_supported_date"] = look
+    if min(look.values()) < 12:
+        res.harness_errors.append(f"look-alike table too thin: {look}")
     # distinct inputs: grid strings are distinct by construction; misc values already inside the grid are not counted again
     misc_dup = sum(len(CLIENT_INFOS) for v in versions if in_grid(tier, v))
     res.coverage["evaluations"] = evaluations
@@ -486,11 +637,11 @@ def run(tier: str, only=None) -> core.Result:
     res.coverage["pairing_handshakes"] = p.get("pairing-cases", 0)
     res.coverage["misc_cases_also_in_grid"] = misc_dup
     bysig: Dict[str, int] = {}
-    for cc in (g, m, p):
+    for cc in (g, m, p, t):
         for k, n in cc.items():
             if k.startswith("sig:"):
                 bysig[k[4:]] = bysig.get(k[4:], 0) + n
-    res.coverage["violating_judgements"] = sum(cc.get("violating-judgements", 0) for cc in (g, m, p))
+    res.coverage["violating_judgements"] = sum(cc.get("violating-judgements", 0) for cc in (g, m, p, t))
     res.coverage["violating_judgements_by_signature"] = dict(sorted(bysig.items()))
     res.coverage["rejected_by_parse_message"] = g.get("rejected-by-parse_message", 0) + m.get("rejected-by-parse_message", 0)
     res.coverage["library_supported_set"] = supported
@@ -500,6 +651,8 @@ def run(tier: str, only=None) -> core.Result:
         {"part": "misc", "input": build_init("\u0662\u0660\u0662\u0665-\u0660\u0666-\u0661\u0668", ABSENT)},
         {"part": "misc", "input": build_init(ABSENT, ABSENT, "no-params")},
         {"part": "pairing", "client_supported": ["2099-01-01", "2025-03-26"], "preferred": "bogus"},
+        {"part": "twostep", "first": build_init("2025-03-26", TWO_CLIENTS[0]), "second": build_init("2099-01-01", TWO_CLIENTS[1]),
+         "second_carries": "first-session-id"},
     ]
     res.coverage["rule"] = (
         "requested protocolVersion = " + (
@@ -507,8 +660,14 @@ def run(tier: str, only=None) -> core.Result:
             if tier == "quick" else "every string dddd-dd-dd with year 1990..2189 (2*10^6)") +
         ", each with and without clientInfo; plus each supported version, "
         f"{len(MALFORMED)} malformed strings (wrong widths, whitespace/NUL/BOM, separators, full-width and Arabic-Indic digits, "
-        f"look-alike letters, concatenations), {len(NON_STRINGS)} non-strings (null, bools, ints, floats, lists, objects) and 'absent' in "
-        "4 envelope shapes; each on a fresh ProtocolHandler.  Pairing: every repetition-free ordered client list of length <= "
+        f"look-alike letters, concatenations), {len(versions) - len(supported) - len(MALFORMED) - len(NON_STRINGS)} generated look-alikes "
+        "of EVERY supported date (a lenient strip/split/int parser reads them as that date: trailing newline / CRLF / VT / NBSP / "
+        "U+2028 / U+3000, surrounding blanks, leading '+', unpadded and over-padded fields, digit-group underscore, full-width / "
+        f"Arabic-Indic / extended Arabic-Indic / Devanagari digits), {len(NON_STRINGS)} non-strings (null, bools, ints, floats, lists, objects) and 'absent' in "
+        "4 envelope shapes; each on a fresh ProtocolHandler.  Two-step: every ordered pair of 12 requested values (one or more per "
+        "class: each supported, future / past / non-calendar date, word, supported+newline, Arabic-Indic look-alike, int, null, "
+        "absent) as two initialize requests on ONE handler, the second carrying no session id / the first one's / a never-issued "
+        "one; the session id returned by each initialize must record the version answered by that initialize.  Pairing: every repetition-free ordered client list of length <= "
         + ("2" if tier == "quick" else "3") + " over the 3 supported versions + 2099-01-01 + 1999-12-31 + 'bogus', x preferred in that "
         "universe or None, real send_initialize against the real handler over memory streams.  distinct = distinct "
         "(requested value, clientInfo, envelope) inputs / (list, preferred) configurations; all are non-trivial (each is judged)"
@@ -518,6 +677,8 @@ def run(tier: str, only=None) -> core.Result:
         "an error response to an unsupported / malformed / absent version is accepted (it acknowledges nothing); an error for a "
         "supported version is not",
         "an absent protocolVersion may be answered with any supported version",
+        "two-step part: if a second initialize returns no new session id while carrying a live one, the carried session is taken as "
+        "the session it recorded; whether a second initialize creates a new session is C19's subject",
         "the pairing pump carries wire dicts (model_dump(exclude_none) -> JSON -> parse_message) like a transport; "
         "a handshake ending in VersionMismatchError is accepted even when client and server lists intersect",
         "virtual-time loop schedules ready callbacks FIFO like stock asyncio",
